@@ -102,7 +102,9 @@ type issuedCode struct {
 
 type issuedRT struct {
 	token, client string
-	scopes        []string
+	scopes        []string // scopes of the grant as the storage recorded them with this token
+	dead          bool     // rotated away: a later refresh succeeded with it
+	orphan        bool     // created by the storage during a request that ended in an error (never delivered)
 }
 
 // assertion mints a private_key_jwt client assertion and describes it symbolically
@@ -117,6 +119,34 @@ func assertion(sy *symbols, l *hx.Line, key *hx.Key, kid, iss, sub string, aud [
 	return tok
 }
 
+func without(xs []string, x string) []string {
+	var out []string
+	for _, y := range xs {
+		if y != x {
+			out = append(out, y)
+		}
+	}
+	return out
+}
+
+func containsStr(xs []string, x string) bool {
+	for _, y := range xs {
+		if y == x {
+			return true
+		}
+	}
+	return false
+}
+
+func subsetStr(a, b []string) bool {
+	for _, x := range a {
+		if !containsStr(b, x) {
+			return false
+		}
+	}
+	return true
+}
+
 func flowStream(prop string, r *hx.Rand, tier string, n int, w *bufio.Writer) map[string]int {
 	if n == 0 {
 		n = 400
@@ -127,13 +157,14 @@ func flowStream(prop string, r *hx.Rand, tier string, n int, w *bufio.Writer) ma
 	stats := map[string]int{}
 	sy := newSymbols()
 	caseNo := 0
+	h0 := 0 // case id of the reset line of the current history: a case is replayed with its history prefix (-only)
 	emit := func(l *hx.Line) {
-		fmt.Fprintln(w, l.String())
+		fmt.Fprintln(w, l.I("h0", int64(h0)).S("end", "").String())
 		caseNo++
 	}
-	maxOps := 14
+	maxOps, maxChain := 14, 5
 	if tier == "thorough" {
-		maxOps = 40
+		maxOps, maxChain = 40, 12
 	}
 	for h := 0; h < n; h++ {
 		router := hx.Pick(r, "provider", "legacy")
@@ -153,6 +184,7 @@ func flowStream(prop string, r *hx.Rand, tier string, n int, w *bufio.Writer) ma
 		for _, fc := range cls {
 			byID[fc.c.ID] = fc
 		}
+		h0 = caseNo
 		l := hx.NewLine(prop).I("case", int64(caseNo)).S("op", "reset").S("router", router).B("post", cfg.Post).B("pkjwt", cfg.PrivateKeyJWT).
 			B("refresh", cfg.Refresh).S("issuer", opbed.Issuer)
 		clientsKV(l, cls)
@@ -160,9 +192,338 @@ func flowStream(prop string, r *hx.Rand, tier string, n int, w *bufio.Writer) ma
 
 		var pending []string // auth request ids not yet called back
 		var codes []issuedCode
-		var rts []issuedRT
+		var rts []*issuedRT
 		codeNo := 0
 		verifiers := map[string]string{} // auth req id -> verifier
+
+		// ---- the operations (each emits one line = one request against the real handlers)
+		doAuthorize := func(fc *flowClient, scopes string, dropChallenge, forcePKCE bool) string {
+			redirect := fc.c.Redirects[r.Intn(len(fc.c.Redirects))]
+			nonce := hx.Pick(r, "", "n-1", "n-2")
+			q := url.Values{"client_id": {fc.c.ID}, "redirect_uri": {redirect}, "response_type": {"code"}, "scope": {scopes}, "state": {"st"}}
+			if nonce != "" {
+				q.Set("nonce", nonce)
+			}
+			verifier, method := "", ""
+			if fc.c.Auth == oidc.AuthMethodNone || forcePKCE || r.Chance(45) {
+				verifier = hx.Pick(r, "verifier-AAAAAAAAAAAAAAAAAAAAAAAAAAAAAAAAAAAAAAAAAAA", "verifier-BBBBBBBBBBBBBBBBBBBBBBBBBBBBBBBBBBBBBBBBBBB")
+				method = hx.Pick(r, "S256", "S256", "plain")
+				ch := verifier
+				if method == "S256" {
+					ch = oidc.NewSHACodeChallenge(verifier)
+				}
+				q.Set("code_challenge", ch)
+				q.Set("code_challenge_method", method)
+			}
+			if fc.c.Auth == oidc.AuthMethodNone && dropChallenge {
+				q.Del("code_challenge")
+				q.Del("code_challenge_method")
+				verifier, method = "", ""
+			}
+			resp := bed.Do(bed.Get("/authorize", q, ""))
+			l := hx.NewLine(prop).I("case", int64(caseNo)).S("op", "authorize").S("client", fc.c.ID).S("redirect", redirect).
+				L("scopes", strings.Split(scopes, " ")).S("nonce", nonce).S("state", "st")
+			if verifier != "" {
+				sym := verifier
+				if method == "S256" {
+					sym = "S256(" + verifier + ")"
+				}
+				l.S("chal.m", method).S("chal.c", sym)
+			}
+			id := ""
+			if resp.Loc != nil && strings.HasPrefix(resp.Loc.Path, "/login") {
+				id = resp.Loc.Query().Get("authRequestID")
+			}
+			if id != "" {
+				l.S("obs", "login").S("o.id", id)
+				pending = append(pending, id)
+				verifiers[id] = verifier
+			} else {
+				l.S("obs", "err").I("o.status", int64(resp.Status))
+			}
+			stats["op-authorize"]++
+			emit(l)
+			return id
+		}
+		doLogin := func(id string) {
+			sub := hx.Pick(r, "user1", "user2")
+			bed.Store.CompleteAuthRequest(id, sub)
+			ar := bed.Store.GetAuthRequest(id)
+			l := hx.NewLine(prop).I("case", int64(caseNo)).S("op", "login").S("id", id).S("sub", sub)
+			if ar != nil {
+				l.I("authtime", ar.AuthTime.Unix())
+			}
+			stats["op-login"]++
+			emit(l)
+		}
+		doCallback := func(id string, keepPending bool) *issuedCode {
+			resp := bed.Do(bed.Get("/authorize/callback", url.Values{"id": {id}}, ""))
+			l := hx.NewLine(prop).I("case", int64(caseNo)).S("op", "callback").S("id", id)
+			code := ""
+			if resp.Loc != nil {
+				code = resp.Loc.Query().Get("code")
+			}
+			var out *issuedCode
+			if code != "" {
+				codeNo++
+				label := fmt.Sprintf("c%d", codeNo)
+				ar := bed.Store.GetAuthRequest(id)
+				ic := issuedCode{label: label, real: code, id: id, verifier: verifiers[id]}
+				if ar != nil {
+					ic.client, ic.redirect = ar.ClientID, ar.RedirectURI
+				}
+				codes = append(codes, ic)
+				out = &ic
+				l.S("obs", "code").S("o.code", label)
+				if !keepPending { // usually a request is called back once
+					for pi, pid := range pending {
+						if pid == id {
+							pending = append(pending[:pi], pending[pi+1:]...)
+							break
+						}
+					}
+				}
+			} else {
+				l.S("obs", "err").I("o.status", int64(resp.Status))
+				if resp.Loc != nil {
+					l.S("o.error", resp.Loc.Query().Get("error"))
+				}
+			}
+			stats["op-callback"]++
+			emit(l)
+			return out
+		}
+		// doExchange returns the refresh token delivered with a successful response (nil otherwise)
+		doExchange := func(ic issuedCode, caller *flowClient, redirect, verifier, codeStr, codeLabel string, fault bool) *issuedRT {
+			form := url.Values{"grant_type": {"authorization_code"}, "code": {codeStr}, "redirect_uri": {redirect}}
+			if verifier != "" {
+				form.Set("code_verifier", verifier)
+			}
+			l := hx.NewLine(prop).I("case", int64(caseNo)).S("op", "exchange").S("code", codeLabel).S("redirect", redirect).S("verifier", verifier)
+			auth := flowAuth(r, sy, l, caller, cls)
+			before := bed.Store.RefreshTokens()
+			if fault {
+				// storage hiccup: consuming the code fails for this one request
+				bed.Store.FailMethod("DeleteAuthRequest", errors.New("injected storage failure"))
+				l.B("fault.delete", true)
+			}
+			waitClearOfSecondEdge()
+			t0 := time.Now()
+			resp := bed.Do(bed.Form("/oauth/token", form, auth))
+			t1 := time.Now()
+			if fault {
+				bed.Store.ClearFaults()
+				stats["exchange-with-delete-fault"]++
+			}
+			l.I("now0", t0.UnixNano()).I("now1", t1.UnixNano())
+			nrt := flowTokenObs(bed, l, resp, &rts)
+			if nrt == nil && !resp.Panicked {
+				// a refresh token the storage created although the request ended in an error: never delivered,
+				// but it exists (the observer learns it from the storage, as it learns the journal)
+				for _, tok := range bed.Store.RefreshTokens() {
+					if !containsStr(before, tok) {
+						if rec := bed.Store.Refresh(tok); rec != nil {
+							l.S("o.minted", tok).L("o.rtscopes", rec.Scopes).S("o.rtclient", rec.ClientID).S("o.rtsub", rec.Subject).
+								I("o.rtauthtime", rec.AuthTime.Unix()).L("o.rtaud", rec.Audience)
+							rts = append(rts, &issuedRT{token: tok, client: rec.ClientID, scopes: rec.Scopes, orphan: true})
+							stats["exchange-left-orphan-refresh-token"]++
+						}
+						break
+					}
+				}
+			}
+			stats["op-exchange"]++
+			stats["exchange-"+obsClass(resp)]++
+			emit(l)
+			return nrt
+		}
+		// doRefresh presents token string tok (rt = the record it stands for, nil for garbage) as caller
+		doRefresh := func(rt *issuedRT, tok string, caller *flowClient, scopes []string) *issuedRT {
+			form := url.Values{"grant_type": {"refresh_token"}, "refresh_token": {tok}}
+			if len(scopes) > 0 {
+				form.Set("scope", strings.Join(scopes, " "))
+			}
+			// shape of the request (for the distribution only)
+			shape := "unknown-token"
+			if rt != nil && tok == rt.token {
+				switch {
+				case rt.dead:
+					shape = "replay"
+				case caller.c.ID != rt.client:
+					shape = "foreign"
+				case rt.orphan:
+					shape = "orphan"
+				case len(scopes) == 0:
+					shape = "empty"
+				case !subsetStr(scopes, rt.scopes) && subsetStr(rt.scopes, scopes):
+					shape = "widen"
+				case !subsetStr(scopes, rt.scopes):
+					shape = "disjoint"
+				case len(scopes) == len(rt.scopes):
+					shape = "same"
+				case containsStr(rt.scopes, "offline_access") && !containsStr(scopes, "offline_access"):
+					shape = "narrow-drop-offline"
+				default:
+					shape = "narrow"
+				}
+			}
+			l := hx.NewLine(prop).I("case", int64(caseNo)).S("op", "refresh").S("rt", tok).L("scopes", scopes).S("shape", shape)
+			auth := flowAuth(r, sy, l, caller, cls)
+			waitClearOfSecondEdge()
+			t0 := time.Now()
+			resp := bed.Do(bed.Form("/oauth/token", form, auth))
+			t1 := time.Now()
+			l.I("now0", t0.UnixNano()).I("now1", t1.UnixNano())
+			nrt := flowTokenObs(bed, l, resp, &rts)
+			if resp.Status == 200 && !resp.Panicked && rt != nil && tok == rt.token && bed.Store.Refresh(tok) == nil {
+				rt.dead = true
+			}
+			stats["op-refresh"]++
+			stats["refresh-"+obsClass(resp)]++
+			stats["refresh-"+shape+"-"+obsClass(resp)]++
+			emit(l)
+			return nrt
+		}
+		// a chain of refreshes on the newest token of one grant: narrowing step by step (offline_access dropped
+		// first / last / never), with replays of rotated tokens, foreign callers, widening and re-widening in between
+		refreshChain := func(cur *issuedRT) {
+			owner := byID[cur.client]
+			if owner == nil {
+				return
+			}
+			steps := 2 + r.Intn(maxChain)
+			plan := r.Intn(3)
+			var rotated []*issuedRT
+			dropped := []string{}
+			stats["refresh-chains"]++
+			for i := 0; i < steps && cur != nil; i++ {
+				stats["refresh-chain-steps"]++
+				switch k := r.Intn(12); {
+				case k == 0 && len(rotated) > 0: // replay of a token that was rotated away
+					old := rotated[r.Intn(len(rotated))]
+					doRefresh(old, old.token, owner, nil)
+				case k == 1: // another client presents the token
+					doRefresh(cur, cur.token, cls[r.Intn(len(cls))], nil)
+				case k == 2: // widening: a scope that was never granted, or one that was dropped earlier in the chain
+					extra := "admin"
+					if len(dropped) > 0 && r.Bool() {
+						extra = dropped[r.Intn(len(dropped))]
+					}
+					doRefresh(cur, cur.token, owner, append(append([]string{}, cur.scopes...), extra))
+				case k == 3: // no scope parameter: the grant as it is
+					if nrt := doRefresh(cur, cur.token, owner, nil); nrt != nil {
+						rotated = append(rotated, cur)
+						cur = nrt
+					}
+				default: // one narrowing step according to the plan
+					next := append([]string{}, cur.scopes...)
+					hasOff := containsStr(next, "offline_access")
+					others := without(without(next, "offline_access"), "openid")
+					switch {
+					case plan == 0 && hasOff:
+						next = without(next, "offline_access")
+						dropped = append(dropped, "offline_access")
+					case len(others) > 0:
+						d := others[r.Intn(len(others))]
+						next = without(next, d)
+						dropped = append(dropped, d)
+					case plan == 1 && hasOff:
+						next = without(next, "offline_access")
+						dropped = append(dropped, "offline_access")
+					}
+					if nrt := doRefresh(cur, cur.token, owner, next); nrt != nil {
+						rotated = append(rotated, cur)
+						cur = nrt
+					} else if rec := bed.Store.Refresh(cur.token); rec == nil {
+						cur = nil // the token is gone although no new one was delivered
+					}
+				}
+			}
+		}
+		pChain, pScript := 30, 12
+		if prop == "C07" {
+			pChain, pScript = 85, 55
+		}
+		// a scripted happy path first (authorize with offline_access, login, callback, correct exchange), so that refresh
+		// chains are a substantial part of the stream
+		if r.Chance(pScript) {
+			var elig []*flowClient
+			for _, fc := range cls {
+				if containsStr(grantStrings(fc.c.Grants), "refresh_token") && containsStr(grantStrings(fc.c.Grants), "authorization_code") {
+					elig = append(elig, fc)
+				}
+			}
+			fc := elig[r.Intn(len(elig))]
+			scopes := hx.Pick(r, "openid offline_access", "openid email offline_access profile", "openid profile offline_access")
+			if id := doAuthorize(fc, scopes, false, false); id != "" {
+				doLogin(id)
+				if ic := doCallback(id, false); ic != nil {
+					if nrt := doExchange(*ic, fc, ic.redirect, ic.verifier, ic.real, ic.label, false); nrt != nil {
+						stats["scripted-grants"]++
+						refreshChain(nrt)
+					}
+				}
+			}
+		}
+		// a scripted storage hiccup: the owner's correct exchange meets a failing DeleteAuthRequest, then the client retries
+		// with the same code (twice): tokens must be handed out exactly once
+		if r.Chance(10) {
+			var elig []*flowClient
+			for _, fc := range cls {
+				if containsStr(grantStrings(fc.c.Grants), "authorization_code") {
+					elig = append(elig, fc)
+				}
+			}
+			fc := elig[r.Intn(len(elig))]
+			if id := doAuthorize(fc, hx.Pick(r, "openid", "openid offline_access", "openid email offline_access"), false, false); id != "" {
+				doLogin(id)
+				if ic := doCallback(id, false); ic != nil {
+					stats["scripted-delete-fault-and-retry"]++
+					doExchange(*ic, fc, ic.redirect, ic.verifier, ic.real, ic.label, true)
+					doExchange(*ic, fc, ic.redirect, ic.verifier, ic.real, ic.label, false)
+					doExchange(*ic, fc, ic.redirect, ic.verifier, ic.real, ic.label, false)
+				}
+			}
+		}
+		// a scripted cross-client redemption: a code of one client is presented, with everything else right, by other clients
+		// that authenticate correctly as themselves (twice by the private_key_jwt client: half of its assertions are
+		// deliberately broken), and finally by its owner
+		if prop == "C04" && r.Chance(15) {
+			owner := byID[hx.Pick(r, "web", "web2", "post")]
+			if id := doAuthorize(owner, hx.Pick(r, "openid", "openid offline_access"), false, false); id != "" {
+				doLogin(id)
+				if ic := doCallback(id, false); ic != nil {
+					stats["scripted-cross-client"]++
+					for _, other := range []string{"pk", "pk", hx.Pick(r, "web", "web2", "pub", "post")} {
+						if other != owner.c.ID {
+							doExchange(*ic, byID[other], ic.redirect, ic.verifier, ic.real, ic.label, false)
+						}
+					}
+					doExchange(*ic, owner, ic.redirect, ic.verifier, ic.real, ic.label, false)
+				}
+			}
+		}
+		// a scripted PKCE near-miss: a client that authenticates (secret / assertion) redeems a code whose request carried
+		// a challenge with a wrong or without a code_verifier (everything else correct)
+		if prop == "C04" && r.Chance(25) {
+			var elig []*flowClient
+			for _, fc := range cls {
+				if fc.c.Auth != oidc.AuthMethodNone && containsStr(grantStrings(fc.c.Grants), "authorization_code") {
+					elig = append(elig, fc)
+				}
+			}
+			fc := elig[r.Intn(len(elig))]
+			if id := doAuthorize(fc, hx.Pick(r, "openid", "openid offline_access"), false, true); id != "" {
+				doLogin(id)
+				if ic := doCallback(id, false); ic != nil {
+					stats["scripted-pkce-near-miss"]++
+					doExchange(*ic, fc, ic.redirect, hx.Pick(r, "", "wrong", "verifier-CCCCCCCCCCCCCCCCCCCCCCCCCCCCCCCCCCCCCCCCCCC"), ic.real, ic.label, false)
+					if r.Chance(50) {
+						doExchange(*ic, fc, ic.redirect, ic.verifier, ic.real, ic.label, false)
+					}
+				}
+			}
+		}
 		nops := 4 + r.Intn(maxOps)
 		for o := 0; o < nops; o++ {
 			// weighted choice among the operations that are possible now
@@ -191,52 +552,8 @@ func flowStream(prop string, r *hx.Rand, tier string, n int, w *bufio.Writer) ma
 			switch {
 			case kind <= 2: // authorize
 				fc := cls[r.Intn(len(cls))]
-				redirect := fc.c.Redirects[r.Intn(len(fc.c.Redirects))]
 				scopes := hx.Pick(r, "openid", "openid profile", "openid offline_access", "openid email offline_access profile")
-				nonce := hx.Pick(r, "", "n-1", "n-2")
-				q := url.Values{"client_id": {fc.c.ID}, "redirect_uri": {redirect}, "response_type": {"code"}, "scope": {scopes}, "state": {"st"}}
-				if nonce != "" {
-					q.Set("nonce", nonce)
-				}
-				verifier, method := "", ""
-				if fc.c.Auth == oidc.AuthMethodNone || r.Chance(45) {
-					verifier = hx.Pick(r, "verifier-AAAAAAAAAAAAAAAAAAAAAAAAAAAAAAAAAAAAAAAAAAA", "verifier-BBBBBBBBBBBBBBBBBBBBBBBBBBBBBBBBBBBBBBBBBBB")
-					method = hx.Pick(r, "S256", "S256", "plain")
-					ch := verifier
-					if method == "S256" {
-						ch = oidc.NewSHACodeChallenge(verifier)
-					}
-					q.Set("code_challenge", ch)
-					q.Set("code_challenge_method", method)
-				}
-				if fc.c.Auth == oidc.AuthMethodNone && r.Chance(15) {
-					q.Del("code_challenge")
-					q.Del("code_challenge_method")
-					verifier, method = "", ""
-				}
-				resp := bed.Do(bed.Get("/authorize", q, ""))
-				l := hx.NewLine(prop).I("case", int64(caseNo)).S("op", "authorize").S("client", fc.c.ID).S("redirect", redirect).
-					L("scopes", strings.Split(scopes, " ")).S("nonce", nonce).S("state", "st")
-				if verifier != "" {
-					sym := verifier
-					if method == "S256" {
-						sym = "S256(" + verifier + ")"
-					}
-					l.S("chal.m", method).S("chal.c", sym)
-				}
-				id := ""
-				if resp.Loc != nil && strings.HasPrefix(resp.Loc.Path, "/login") {
-					id = resp.Loc.Query().Get("authRequestID")
-				}
-				if id != "" {
-					l.S("obs", "login").S("o.id", id)
-					pending = append(pending, id)
-					verifiers[id] = verifier
-				} else {
-					l.S("obs", "err").I("o.status", int64(resp.Status))
-				}
-				stats["op-authorize"]++
-				emit(l)
+				doAuthorize(fc, scopes, r.Chance(15), false)
 			case kind == 3 && len(pending) > 0: // login
 				id := pending[r.Intn(len(pending))]
 				hasCode := false
@@ -246,51 +563,16 @@ func flowStream(prop string, r *hx.Rand, tier string, n int, w *bufio.Writer) ma
 					}
 				}
 				if hasCode {
-					continue // the user does not log in again on a request that was already called back
+					// the user rarely logs in again (possibly as somebody else) on a request that was already called back:
+					// the tokens then carry the later subject
+					if !r.Chance(30) {
+						continue
+					}
+					stats["login-after-callback"]++
 				}
-				sub := hx.Pick(r, "user1", "user2")
-				bed.Store.CompleteAuthRequest(id, sub)
-				ar := bed.Store.GetAuthRequest(id)
-				l := hx.NewLine(prop).I("case", int64(caseNo)).S("op", "login").S("id", id).S("sub", sub)
-				if ar != nil {
-					l.I("authtime", ar.AuthTime.Unix())
-				}
-				stats["op-login"]++
-				emit(l)
+				doLogin(id)
 			case kind <= 5 && len(pending) > 0: // callback
-				id := pending[r.Intn(len(pending))]
-				resp := bed.Do(bed.Get("/authorize/callback", url.Values{"id": {id}}, ""))
-				l := hx.NewLine(prop).I("case", int64(caseNo)).S("op", "callback").S("id", id)
-				code := ""
-				if resp.Loc != nil {
-					code = resp.Loc.Query().Get("code")
-				}
-				if code != "" {
-					codeNo++
-					label := fmt.Sprintf("c%d", codeNo)
-					ar := bed.Store.GetAuthRequest(id)
-					ic := issuedCode{label: label, real: code, id: id, verifier: verifiers[id]}
-					if ar != nil {
-						ic.client, ic.redirect = ar.ClientID, ar.RedirectURI
-					}
-					codes = append(codes, ic)
-					l.S("obs", "code").S("o.code", label)
-					if r.Chance(85) { // usually a request is called back once
-						for pi, pid := range pending {
-							if pid == id {
-								pending = append(pending[:pi], pending[pi+1:]...)
-								break
-							}
-						}
-					}
-				} else {
-					l.S("obs", "err").I("o.status", int64(resp.Status))
-					if resp.Loc != nil {
-						l.S("o.error", resp.Loc.Query().Get("error"))
-					}
-				}
-				stats["op-callback"]++
-				emit(l)
+				doCallback(pending[r.Intn(len(pending))], !r.Chance(85))
 			case kind <= 8 && len(codes) > 0: // exchange
 				ic := codes[r.Intn(len(codes))]
 				owner := byID[ic.client]
@@ -313,31 +595,9 @@ func flowStream(prop string, r *hx.Rand, tier string, n int, w *bufio.Writer) ma
 						codeLabel = ""
 					}
 				}
-				form := url.Values{"grant_type": {"authorization_code"}, "code": {codeStr}, "redirect_uri": {redirect}}
-				if verifier != "" {
-					form.Set("code_verifier", verifier)
+				if nrt := doExchange(ic, caller, redirect, verifier, codeStr, codeLabel, r.Chance(6)); nrt != nil && r.Chance(pChain) {
+					refreshChain(nrt)
 				}
-				l := hx.NewLine(prop).I("case", int64(caseNo)).S("op", "exchange").S("code", codeLabel).S("redirect", redirect).S("verifier", verifier)
-				auth := flowAuth(r, sy, l, caller, cls)
-				fault := r.Chance(6)
-				if fault {
-					// storage hiccup: consuming the code fails for this one request
-					bed.Store.FailMethod("DeleteAuthRequest", errors.New("injected storage failure"))
-					l.B("fault.delete", true)
-				}
-				waitClearOfSecondEdge()
-				t0 := time.Now()
-				resp := bed.Do(bed.Form("/oauth/token", form, auth))
-				t1 := time.Now()
-				if fault {
-					bed.Store.ClearFaults()
-					stats["exchange-with-delete-fault"]++
-				}
-				l.I("now0", t0.UnixNano()).I("now1", t1.UnixNano())
-				flowTokenObs(bed, l, resp, &rts)
-				stats["op-exchange"]++
-				stats["exchange-"+obsClass(resp)]++
-				emit(l)
 			default: // refresh
 				if len(rts) == 0 {
 					continue
@@ -365,21 +625,7 @@ func flowStream(prop string, r *hx.Rand, tier string, n int, w *bufio.Writer) ma
 				case 3:
 					scopes = []string{"admin"}
 				}
-				form := url.Values{"grant_type": {"refresh_token"}, "refresh_token": {tok}}
-				if len(scopes) > 0 {
-					form.Set("scope", strings.Join(scopes, " "))
-				}
-				l := hx.NewLine(prop).I("case", int64(caseNo)).S("op", "refresh").S("rt", tok).L("scopes", scopes)
-				auth := flowAuth(r, sy, l, caller, cls)
-				waitClearOfSecondEdge()
-				t0 := time.Now()
-				resp := bed.Do(bed.Form("/oauth/token", form, auth))
-				t1 := time.Now()
-				l.I("now0", t0.UnixNano()).I("now1", t1.UnixNano())
-				flowTokenObs(bed, l, resp, &rts)
-				stats["op-refresh"]++
-				stats["refresh-"+obsClass(resp)]++
-				emit(l)
+				doRefresh(rt, tok, caller, scopes)
 			}
 		}
 	}
@@ -437,7 +683,8 @@ func flowAuth(r *hx.Rand, sy *symbols, l *hx.Line, caller *flowClient, cls []*fl
 }
 
 // flowTokenObs writes what the token endpoint answered; on success the issued tokens are read back
-func flowTokenObs(bed *opbed.Bed, l *hx.Line, resp *opbed.Resp, rts *[]issuedRT) {
+func flowTokenObs(bed *opbed.Bed, l *hx.Line, resp *opbed.Resp, rts *[]*issuedRT) *issuedRT {
+	var out *issuedRT
 	switch {
 	case resp.Panicked:
 		l.S("obs", "panic")
@@ -470,7 +717,8 @@ func flowTokenObs(bed *opbed.Bed, l *hx.Line, resp *opbed.Resp, rts *[]issuedRT)
 		if rt := resp.Str("refresh_token"); rt != "" {
 			l.S("o.rt", rt)
 			if rec := bed.Store.Refresh(rt); rec != nil {
-				*rts = append(*rts, issuedRT{token: rt, client: rec.ClientID, scopes: rec.Scopes})
+				out = &issuedRT{token: rt, client: rec.ClientID, scopes: rec.Scopes}
+				*rts = append(*rts, out)
 				l.L("o.rtscopes", rec.Scopes).S("o.rtclient", rec.ClientID).S("o.rtsub", rec.Subject).I("o.rtauthtime", rec.AuthTime.Unix()).L("o.rtaud", rec.Audience)
 			}
 		}
@@ -481,4 +729,5 @@ func flowTokenObs(bed *opbed.Bed, l *hx.Line, resp *opbed.Resp, rts *[]issuedRT)
 		l.S("obs", "err").S("o.err", resp.OAuthError()).I("o.status", int64(resp.Status))
 	}
 	l.L("journal", resp.Journal)
+	return out
 }
